@@ -191,6 +191,9 @@ def ob_witness(timeout_ms=60000):
 
 
 def replay(cex):
+    if cex.get("kind") == "w":
+        from engine import wrun
+        return wrun.replay_generic(cex)
     return hhh.replay_hh_history(cex, judge=("dominate",))
 
 
@@ -210,6 +213,9 @@ def run():
     ind.append(common.Ob("glue: potential lemmas imply Phi >= 2f - W is preserved (linear integer arithmetic)", ob_glue, (60000,), hard_s=120))
     ind.append(common.Ob("witness: all three _add branches reachable", ob_witness, (), kind="witness", hard_s=300))
     obs = ind + obs
+    from engine import wrun
+    wobs, wmeta = wrun.obligations("c04", tier)
+    obs += wobs
     results = common.run_obligations(obs, progress=os.environ.get("VERIF_VERBOSE") == "1")
     for o, r in zip(obs, results):
         if r.get("status") == "cti":
@@ -222,7 +228,7 @@ def run():
         bounds={"induction_shapes(width,depth,max_key_len)": shapes, "key_lengths": "tracked 0..max_key_len, added 0..max_key_len+1, bytes symbolic", "bmc(width,depth,max_key_len,K)": bmc_cfg,
                 "bmc_obligations": nb, "saturation": "excluded as the property states: cell totals < 2^32"},
         stubs=["fasthash64 -> uninterpreted; `% width` yields a fresh column < width per (key, row); equal identities are constrained to equal columns"],
-        assumptions=["Numba lowering preserves typed-IR semantics", "prange == range in _merge", "query()/generate_candidate_set scan every row and report _max_count per stored key (C13)"],
+        assumptions=["Numba lowering preserves typed-IR semantics", "prange == range in _merge", "query()/generate_candidate_set scan every row, report _max_count per stored key with count >= max(threshold,1), and never serve a stale candidate set: the CrossHair conditions of checks/w_c13.py are attached to this check"],
         outside=["saturated cells (excluded by the property)", "max_key_len > 4", "an induction failure without a bounded-history counterexample is reported as inconclusive (exit 2)"],
         explanation="Boyer-Moore potential invariant Phi >= 2f - W proved preserved by the real _add (all branches) and super-additive under _merge; sufficient for _max_count; bounded histories with symbolic key bytes as finder",
         technique="symbolic execution of Numba typed IR + z3 (QF_BV): inductive potential-function invariant with ghost totals, plus bounded histories with symbolic key bytes")
